@@ -162,6 +162,35 @@ check(
     "DESIGN.md §4 C17",
 )
 
+check(
+    "C06", "exploration",
+    "Hypothesis-generated cases executed under permuted registration order, harness-chosen iteration orders of "
+    "ovld's internal sets (module-namespace shadowing), added non-applicable methods, and in fresh subprocesses with "
+    "different hash seeds and allocation padding; outcome vectors must be identical. Order dependence between two "
+    "hook-owning combinator/dependent annotations is a recorded consequence of F5.",
+    "Every imposed order is one a real set could have; only kinds/winners compared.",
+    "metamorphic property-based testing over configurations (order control + subprocess hash seeds)",
+    "DESIGN.md §4 C06",
+)
+check(
+    "C09", "exploration",
+    "Hypothesis grammar over function bodies placing recurse / call_next in every listed expression context, in "
+    "functions and methods; each body is registered twice (rewritten vs ordinary reference callables) and probe "
+    "logs, results, exceptions, traceback lines, default/closure identity and generator laziness are compared. Sampled.",
+    "Reference meaning of recurse / call_next as documented; both texts share the line layout.",
+    "grammar-based differential testing of a source-to-source transformation (Hypothesis)",
+    "DESIGN.md §4 C09",
+)
+check(
+    "C20", "exploration",
+    "Hypothesis histories over method sets annotated with counting class predicates and hook classes; a call that "
+    "has already succeeded since the last change must consult zero hooks when repeated, including nested recurse / "
+    "call_next. Sampled.",
+    "Only user hooks are observable; plain-class work repeated per call is invisible.",
+    "stateful property-based testing with instrumented user hooks as the oracle",
+    "DESIGN.md §4 C20",
+)
+
 ALL = [f"C{i:02d}" for i in range(1, 21)]
 REASON_PENDING = "check not built yet in this revision of /verif (work in progress; see DESIGN.md §8)"
 
